@@ -462,7 +462,7 @@ func exec(in In) vh.Result {
 		}
 		if blown {
 			return vh.Result{Class: "range-enumeration", Direct: &vh.Direct{Kind: "nontermination",
-				Detail: fmt.Sprintf("numeric range searcher probed more than %d candidate terms (the model proves <= 480 for every range); the enumeration does not terminate in practice", probeBudget)}}
+				Detail: fmt.Sprintf("numeric range searcher probed more than %d candidate terms (the model proves <= 464 for every range (C07_range_candidates_total)); the enumeration does not terminate in practice", probeBudget)}}
 		}
 		if err != nil {
 			return vh.Result{Direct: &vh.Direct{Kind: "error", Detail: err.Error()}}
